@@ -375,4 +375,13 @@ def rule_identity(ctx):
     _collect.check_structural_identity(ctx, "IDENT", ctx.facts)
 
 
-RULES = [rule_route, rule_pipe, rule_transition, rule_gamma_shared, rule_symbol_order_shared, rule_argument_order_shared, rule_identity]
+def rule_portfolios_shared(ctx):
+    """the rewrites applied before gamma must be here-and-there equivalences: the members of the portfolios are checked rule by rule (C07's
+    truth-table and membership obligations) - a classical-only rule such as `not not F => F` in the HT table changes the HT models"""
+    from . import c07
+    sub = type(ctx)(ctx.prop, ctx.tier, ctx.facts)
+    c07.rule_rw1(sub)
+    ctx.obls.extend(sub.obls)
+
+
+RULES = [rule_route, rule_pipe, rule_transition, rule_gamma_shared, rule_symbol_order_shared, rule_argument_order_shared, rule_identity, rule_portfolios_shared]
